@@ -36,18 +36,22 @@ ImplTensorAstype(spc, dt) ==
   ELSE IF v.w.kind = "array" /\ ~CanCast(ArrDt(spc), dt) THEN Raises
   ELSE Ok([v EXCEPT !.dt = dt, !.fld = FieldOfDtype(dt)])
 
-RECURSIVE ImplAstype(_, _, _)
-\* viaprop: real_space / complex_space (ProductSpace builds a new space even if nothing changes)
-ImplAstype(spc, dt, viaprop) ==
-  CASE spc.cls = "Tensor" -> ImplTensorAstype(spc, dt)
+RECURSIVE ImplAstype(_, _)
+\* mode: a target dtype (astype) or "real" / "complex" (real_space / complex_space)
+TargetOf(dt, mode) == IF mode = "real" THEN RealDt(dt) ELSE IF mode = "complex" THEN CplxDt(dt) ELSE mode
+ImplAstype(spc, mode) ==
+  CASE spc.cls = "Tensor" -> ImplTensorAstype(spc, TargetOf(spc.s, mode))
     \* DiscretizedSpace._astype: tspace.astype(dtype), same partition
-    [] spc.cls = "Discr" -> ImplTensorAstype(spc, dt)
-    \* ProductSpace.astype: dtype == self.dtype -> self; else ProductSpace(*[space.astype(dtype)])  -- no weighting
+    [] spc.cls = "Discr" -> ImplTensorAstype(spc, TargetOf(spc.sub[2].s, mode))
+    \* ProductSpace.astype: dtype == getattr(self, 'dtype', object) -> self  (self.dtype exists only if ALL components
+    \*   share it); otherwise ProductSpace(*[space.astype(dtype) for space in self.spaces])   -- no weighting
+    \* real_space / complex_space: ProductSpace(*[space.real_space ...]) always, component by component
     [] spc.cls = "PSpace" ->
-         IF ~viaprop /\ dt = DtypeOf(spc) THEN Ok(View(spc))
-         ELSE LET rs == [k \in 1..Len(Comps(spc)) |-> ImplAstype(Comps(spc)[k], dt, viaprop)] IN
+         IF mode \notin {"real", "complex"} /\ mode = DtypeOf(spc) THEN Ok(View(spc))
+         ELSE LET rs == [k \in 1..Len(Comps(spc)) |-> ImplAstype(Comps(spc)[k], mode)] IN
               IF \E k \in 1..Len(rs) : rs[k].k = "raise" THEN Raises
-              ELSE Ok([View(spc) EXCEPT !.dt = dt, !.fld = FieldOfDtype(dt), !.w = DefaultW])
+              ELSE LET ds == [k \in 1..Len(LeafDts(spc)) |-> TargetOf(LeafDts(spc)[k], mode)] IN
+                   Ok([View(spc) EXCEPT !.dt = DtStr(ds), !.fld = FieldOfDtype(ds[1]), !.w = DefaultW])
 
 (* ------------------------------ axis selection -------------------------- *)
 RECURSIVE IntProd(_)
@@ -89,8 +93,9 @@ ImplPGetItem(spc, c) ==
   ELSE Ok([PSelectView(spc, c.idx) EXCEPT !.w = DefaultW])
 
 ImplDerived(spc, c) ==
-  CASE c.op = "astype" -> ImplAstype(spc, c.dt, FALSE)
-    [] c.op \in {"real_space", "complex_space"} -> ImplAstype(spc, c.dt, spc.cls = "PSpace")
+  CASE c.op = "astype" -> ImplAstype(spc, c.dt)
+    [] c.op = "real_space" -> ImplAstype(spc, "real")
+    [] c.op = "complex_space" -> ImplAstype(spc, "complex")
     [] c.op = "byaxis" -> ImplTensorByAxis(spc, c.idx, c.form)
     [] c.op = "byaxis_in" -> ImplByAxisIn(spc, c.idx, c.form)
     [] c.op \in {"getitem-int", "getitem-list"} -> ImplPGetItem(spc, c)
@@ -104,8 +109,11 @@ DtypeChange(c) == c.op \in {"astype", "real_space", "complex_space"}
 OpenCell(spc, c) ==
   \/ (HasArrayW(spc) /\ DtypeChange(c))
   \/ (HasArrayW(spc) /\ spc.cls \in {"Tensor", "Discr"} /\ c.op \in {"byaxis", "byaxis_in"})
-  \/ (spc.cls = "PSpace" /\ (DtypeChange(c) \/ c.op = "getitem-list"))
+\* KF-C20-8 concerns the WEIGHTING (and exponent) only: shape, dtype (component-wise!) and field must be right
+WeightingOpenCell(spc, c) == spc.cls = "PSpace" /\ (DtypeChange(c) \/ c.op = "getitem-list")
 \* the model of the code agrees with layer A outside the open cells
 DerivedRefines(spc) ==
-  \A c \in DerivedCases(spc) : OpenCell(spc, c) \/ DerivedDiff(spc, c, ImplDerived(spc, c)) = {}
+  \A c \in DerivedCases(spc) :
+     LET dd == DerivedDiff(spc, c, ImplDerived(spc, c)) IN
+     dd = {} \/ OpenCell(spc, c) \/ (WeightingOpenCell(spc, c) /\ dd = {"weighting"})
 =============================================================================
